@@ -6,6 +6,34 @@ tracked binds are ordered by co_freevars (alphabetical: mq, st) while the
 cached statement's binds are in statement order (st, mq) and
 CacheKey._apply_params_to_element() zips them positionally.
 Prints MISMATCH lines on the clean checkout.
+
+str2-z2 (triage, 2026-09-23): GENUINE, reproduced on unchanged /repo.  Mechanism
+confirmed by printing both keys inside CacheKey._apply_params_to_element():
+  orig_query = context.compile_state.select_statement  (resolved Select)
+      -> bindparams [st, mq]            (statement order, ALL parameters)
+  current    = context.query  (StatementLambdaElement)
+      -> bindparams [mq, st]            (LambdaElement._gen_cache_key extends
+         with self._resolved_bindparams: tracked closure parameters only, in
+         tracker order = co_freevars order)
+  _OverrideBinds zips the two lists -> {st.key: mq value, mq.key: st value}.
+Wider than "two closure values out of alphabetical order": ONE closure value
+after a literal written inside the lambda (`Line.qty >= 0, Line.status == st`)
+pairs the literal's key with st's value and never applies st (second part of
+this script); lazyload() is affected like selectinload(); joinedload() is not
+(criteria are part of the statement).  Second site with the same pairing:
+Load._adjust_for_extra_criteria (context.user_passed_query vs
+compile_state.select_statement).
+Rule: C17-R7, keys
+  orm/strategy_options.py::_AttributeStrategyLoad._generate_extra_criteria:cache-key-parameters-paired-by-position:same-kind-of-key
+  orm/strategy_options.py::Load._adjust_for_extra_criteria:cache-key-parameters-paired-by-position:same-kind-of-key
+Fix (closure parameters of a lambda keep the keys of the cached ones ->
+pair by key when the executed statement is a lambda):
+findings/C17_loader_criteria_lambda_params_by_key.fix.diff ; with it this
+script prints only "ok" and test/orm/test_lambdas.py test_relationship_criteria
+test/sql/test_lambdas.py test/orm/test_cache_key.py test_selectin_relations
+test_subquery_relations test_eager_relations test_lazy_relations
+test/ext/test_baked.py -> 726 passed, 1 skipped.
+Exit status: 1 when a MISMATCH was printed.
 """
 from sqlalchemy import create_engine, ForeignKey, Integer, String
 from sqlalchemy import lambda_stmt, select
@@ -67,3 +95,79 @@ def snap(stmt):
 for st, mq in [("open", 0), ("open", 10), ("void", 0)]:
     e, g = snap(plain(st, mq)), snap(lam(st, mq))
     print(st, mq, "ok" if e == g else "MISMATCH lambda=%r direct=%r" % (g, e))
+
+
+# ---- str2-z2: wider variants -------------------------------------------------
+from sqlalchemy.orm import lazyload, joinedload  # noqa: E402
+
+_bad = 0
+
+
+def _cmp(name, plain_, lam_, seq):
+    global _bad
+    for args in seq:
+        e = snap(plain_(*args))
+        g = snap(lam_(*args))
+        if e != g:
+            _bad += 1
+        print(name, args, "ok" if e == g else "MISMATCH lambda=%r direct=%r" % (g, e))
+
+
+def snap(stmt):  # noqa: F811  (unique() for joinedload)
+    with Session(engine) as s:
+        return [
+            (o.id, [ln.id for ln in o.lines]) for o in s.scalars(stmt).unique()
+        ]
+
+
+_cmp(
+    "one closure value after an inline literal, selectinload",
+    lambda st: select(Order).options(
+        selectinload(Order.lines.and_(Line.qty >= 0, Line.status == st))
+    ),
+    lambda st: lambda_stmt(
+        lambda: select(Order).options(
+            selectinload(Order.lines.and_(Line.qty >= 0, Line.status == st))
+        )
+    ),
+    [("open",), ("void",), ("open",)],
+)
+_cmp(
+    "two closure values, lazyload",
+    lambda st, mq: select(Order).options(
+        lazyload(Order.lines.and_(Line.status == st, Line.qty >= mq))
+    ),
+    lambda st, mq: lambda_stmt(
+        lambda: select(Order).options(
+            lazyload(Order.lines.and_(Line.status == st, Line.qty >= mq))
+        )
+    ),
+    [("open", 0), ("open", 10), ("void", 0)],
+)
+_cmp(
+    "control: closure names in statement order (a, b), selectinload",
+    lambda a, b: select(Order).options(
+        selectinload(Order.lines.and_(Line.status == a, Line.qty >= b))
+    ),
+    lambda a, b: lambda_stmt(
+        lambda: select(Order).options(
+            selectinload(Order.lines.and_(Line.status == a, Line.qty >= b))
+        )
+    ),
+    [("open", 0), ("open", 10), ("void", 0)],
+)
+_cmp(
+    "control: joinedload",
+    lambda st, mq: select(Order).options(
+        joinedload(Order.lines.and_(Line.status == st, Line.qty >= mq))
+    ),
+    lambda st, mq: lambda_stmt(
+        lambda: select(Order).options(
+            joinedload(Order.lines.and_(Line.status == st, Line.qty >= mq))
+        )
+    ),
+    [("open", 0), ("open", 10), ("void", 0)],
+)
+import sys  # noqa: E402
+
+sys.exit(1 if _bad else 0)
